@@ -89,6 +89,18 @@ def explore(ctx):
             ops = "".join(rng.choice("GGGGGPRR") for _ in range(5 + rng.below(30)))
             lines.append("remote r%d groups=%s ops=%s %s" % (k, enc_groups(gs), ops, " ".join(extra)))
             k += 1
+        # raw text straight into the parser: one address, several, blanks, mixed case, stray separators and white space
+        for _ in range({"quick": 400, "thorough": 6000, "search": 1000}[tier]):
+            toks = ["a", "B", "Host:1", "X.y:2", " a ", "", "  ", "c:1", "A", "b\t", "MiXeD.example:443"]
+            shape = rng.below(5)
+            if shape == 0:
+                txt = rng.choice(toks)                               # exactly one address, no separator at all
+            elif shape == 1:
+                txt = rng.choice(toks) + rng.choice([";", ",", " ;", ", "])
+            else:
+                txt = ";".join(",".join(rng.choice(toks) for _ in range(rng.below(4))) for _ in range(1 + rng.below(3)))
+            lines.append("parse q%d s=%s" % (k, txt.encode().hex() or "-"))
+            k += 1
         for _ in range({"quick": 30, "thorough": 400, "search": 100}[tier]):
             gs = rand_groups(rng)
             lines.append("conc c%d groups=%s cycles=%d workers=%d" % (k, enc_groups(gs), 1 + rng.below(4), 2 + rng.below(7)))
